@@ -556,6 +556,9 @@ class categorical_ndarray(np.ndarray):
     @categories.setter
     def categories(self, value):
         self._categories = value
+        # The codes refer to the categories so need to be computed again
+        if hasattr(self, '_codes'):
+            del self._codes
 
     @property
     def codes(self):
